@@ -225,8 +225,9 @@ fn gen_bounds(rng: &mut Rng, max: usize) -> (usize, Option<usize>) {
     // one time in sixteen: bounds around the sizes at which buffers are preallocated (16), to go
     // with the long token runs of `stretch`
     if rng.chance(1, 16) {
-        let hi = 15 + rng.below(4);
-        let lo = *rng.pick(&[0usize, 1, 16, hi]);
+        // (`usize::MAX` is how "no real upper bound" is spelled with a bounded combinator)
+        let hi = if rng.chance(1, 4) { usize::MAX } else { 15 + rng.below(4) };
+        let lo = *rng.pick(&[0usize, 1, 16, 17]);
         return (lo.min(hi), Some(hi));
     }
     let lo = rng.below(max + 1);
@@ -576,7 +577,7 @@ pub fn derive(g: &G, rng: &mut Rng, out: &mut Vec<&'static str>, depth: usize) {
         }
         Repeat(_, lo, hi, a) => {
             let n = lo + rng.below(3);
-            let n = hi.map_or(n, |h| n.min(h + rng.below(2)));
+            let n = hi.map_or(n, |h| n.min(h.saturating_add(rng.below(2))));
             for _ in 0..n { derive(a, rng, out, d); }
         }
         RepeatUntil(_, lo, _, st, a) => { for _ in 0..lo + rng.below(3) { derive(a, rng, out, d); } if rng.chance(1, 2) { derive(st, rng, out, d); } }
@@ -812,6 +813,32 @@ pub fn family(out: &mut Out, family: &str, tier: &Tier, rng: &mut Rng) {
                 mk(token_text(rng, 9, &[]), rng, g)
             }
             "peg" => { let d = 1 + rng.below(3); let g = gen_peg(rng, d); mk(token_text(rng, 7, &[]), rng, g) }
+            "rep" if i % 16 == 15 => {
+                // repetitions whose items recover through the sink (bracketed or recovering items):
+                // a malformed-but-recoverable item at an optional position must still be taken
+                let item = match rng.below(3) {
+                    0 => G::Bracket(rng.below(4) as u8, vec![6], Box::new(G::One(0)), vec![7], vec![]),
+                    1 => G::Recover(rng.below(2) as u8, Box::new(G::Both(Box::new(G::One(6)), Box::new(G::One(0)))), Rec::After(7)),
+                    _ => G::Left(Box::new(G::Recover(1, Box::new(G::One(0)), Rec::Before(5))), Box::new(G::One(5))),
+                };
+                let (lo, hi) = gen_bounds(rng, 3);
+                let g = match rng.below(3) {
+                    0 => G::Repeat(rng.below(2) as u8, lo, hi, Box::new(item)),
+                    1 => G::Intersperse(rng.below(2) as u8, lo, hi, Box::new(item), Box::new(G::One(4))),
+                    _ => G::Both(Box::new(G::Repeat(0, lo, hi, Box::new(item))), Box::new(G::Maybe(Box::new(G::One(3))))),
+                };
+                let mut c = mk(String::new(), rng, g);
+                let n = 1 + rng.below(4);
+                let mut text = String::new();
+                for k in 0..n {
+                    if k > 0 { text.push_str(*rng.pick(&["", " ", ",", " , "])); }
+                    text.push_str(*rng.pick(&["(a)", "(a)", "(b)", "( a )", "a;", "b;", "(a", "()"]));
+                }
+                text.push_str(*rng.pick(&["", " d", ";"]));
+                c.text = text; c.le = LineEnding::Lf; c.tab = 4; c.filter = Some(1);
+                c.sink = rng.chance(3, 4);
+                c
+            }
             "rep" => { let g = gen_rep(rng); mk(token_text(rng, 9, &[]), rng, g) }
             "capture" => {
                 let inner = if rng.chance(1, 2) { gen_peg(rng, 2) } else { gen_rep(rng) };
@@ -949,6 +976,29 @@ pub fn family(out: &mut Out, family: &str, tier: &Tier, rng: &mut Rng) {
                 c
             }
             "twice" => { let d = rng.below(3); let g = gen_committed(rng, d); let mut c = mk(token_text(rng, 9, &[',', ';', '[', ']', '(', ')']), rng, g); c.sink = i % 2 == 0; c.nctx = if rng.chance(1, 3) { 1 + rng.below(4) } else { 0 }; c }
+            "scoped" if i % 8 == 6 => {
+                // one `raw` parser object applied under different contexts: `stabilize` runs its first
+                // attempt in the caller's context and its retries without the sink.  The lexer arrives
+                // recovering (an earlier, unstabilised recovery), the wrapped parser reports through the
+                // sink and then fails, so the retries happen.
+                let pre = G::Recover(1, Box::new(G::Seq(vec![2, 2])), Rec::After(5));
+                let p = G::Both(
+                    Box::new(G::Recover(rng.below(2) as u8, Box::new(G::One(0)), Rec::Before(5))),
+                    Box::new(G::One(1)));
+                let wrapped = if rng.chance(3, 4) { G::Raw(Box::new(p)) } else { p };
+                // (absorbed by an alternative, not by `maybe`, which would take the sink away itself)
+                let st = G::Either(Box::new(G::Stabilize(Box::new(wrapped))), Box::new(G::Maybe(Box::new(G::One(3)))));
+                let g = G::Both(Box::new(G::Probe(0)), Box::new(G::Both(Box::new(pre),
+                    Box::new(G::Both(Box::new(st), Box::new(G::Probe(9)))))));
+                let mut c = mk(String::new(), rng, g);
+                let mut text = String::from(*rng.pick(&["c ; ", "c d ; ", "c c ", "b ; ", "; "]));
+                for _ in 0..1 + rng.below(4) {
+                    text.push_str(*rng.pick(&["a ", "d ", "a ; ", "d ; ", "a b ", "; ", "b ", "b ; "]));
+                }
+                c.text = text; c.le = LineEnding::Lf; c.tab = 4; c.filter = Some(1);
+                c.sink = rng.chance(4, 5); c.nctx = rng.below(3);
+                c
+            }
             "scoped" if i % 8 == 7 => {
                 // a list whose item can succeed on nothing (so the optional trailing item after a
                 // trailing separator SUCCEEDS at the abort token), followed by siblings that need
